@@ -10,7 +10,7 @@
 //   hs     upgrade request with a random key -> WebSocketServer::serve(Socket): key and returned accept value
 //   hsc    WebSocket::connect against a raw listener: the request bytes the client wrote
 // Lengths are biased to the 125/126 and 65535/65536 header boundaries; --mode 1 (thorough) adds messages up to 4 MiB.
-#include "c11_common.h"
+#include "c11_conn.h"
 #include "vrec.h"
 #include <signal.h>
 
@@ -21,6 +21,7 @@ static Rng* R;
 static Log* LOG;
 static pthread_mutex_t logMutex = PTHREAD_MUTEX_INITIALIZER;
 static int g_mode = 0;
+static int g_minPing = 0; // 1 while the finding EmptyPingNoPong is open: no ping without payload is generated
 
 static void logLine(const std::string& s)
 {
@@ -195,11 +196,11 @@ static void evRx()
 			if (f < nfr - 1 && R->chance(40))
 			{
 				std::string pp;
-				expand(pp, R->below(5), 7);
+				expand(pp, g_minPing + R->below(5), 7);
 				putFrame(w, true, R->chance(70) ? 9 : 10, masked, pp);
 			}
 		}
-		if (R->chance(25)) { std::string pp; expand(pp, R->below(126), 3); putFrame(w, true, R->chance(50) ? 9 : 10, masked, pp); }
+		if (R->chance(25)) { std::string pp; expand(pp, g_minPing + R->below(125), 3); putFrame(w, true, R->chance(50) ? 9 : 10, masked, pp); }
 	}
 	if (R->chance(50)) { std::string cl = std::string("\x03\xe8", 2) + (R->chance(50) ? "" : "bye"); putFrame(w, true, 8, masked, R->chance(20) ? std::string() : cl); }
 	if (R->chance(30)) w.resize((size_t)R->below((int)w.size() + 1));
@@ -265,8 +266,10 @@ struct Listener
 			if (n <= 0) break;
 			self->request.append(b, (size_t)n);
 		}
-		const char resp[] = "HTTP/1.1 101 Switching Protocols\r\nUpgrade: websocket\r\nConnection: Upgrade\r\nSec-WebSocket-Accept: s3pPLMBiTxaQ9kYGzzhZRbK+xOo=\r\n\r\n";
-		if (send(fd, resp, sizeof resp - 1, MSG_NOSIGNAL) < 0) {}
+		// (the accept value of the key the client sent: independent SHA-1 / Base64 of c11_conn.h, itself validated by the chs events)
+		std::string resp = "HTTP/1.1 101 Switching Protocols\r\nUpgrade: websocket\r\nConnection: Upgrade\r\nSec-WebSocket-Accept: " +
+		                   acceptFor(headValue(self->request, "sec-websocket-key")) + "\r\n\r\n";
+		if (send(fd, resp.data(), resp.size(), MSG_NOSIGNAL) < 0) {}
 		shutdown(fd, SHUT_WR);
 		while (read(fd, b, sizeof b) > 0) {}
 		close(fd);
@@ -315,6 +318,7 @@ int main(int argc, char** argv)
 	Log log(args.out);
 	LOG = &log;
 	g_mode = args.mode;
+	g_minPing = args.avoid.count("EmptyPingNoPong") ? 1 : 0;
 	signal(SIGPIPE, SIG_IGN);
 	signal(SIGALRM, onAlarm);
 	logLine("{\"e\":\"reset\"}");
